@@ -1,9 +1,9 @@
 #!/usr/bin/env python3
 """
-tools/rs2lean_link.py — renderer of the targets `fn:link` / `fn:invlink` of tools/rs2lean_fn.py (imported by it; not a script).
+tools/rs2lean_link.py — renderer of the target `fn:link` of tools/rs2lean_fn.py (imported by it; not a script).
 
 It reuses the tokenizer, the item parser and the statement / expression parser of rs2lean_fn.py and renders the inherent
-functions of yui-link/src/link/{crossing,link,path}.rs (and inv_link.rs) as Lean definitions in `do` notation over the
+functions of yui-link/src/link/{crossing,link,path}.rs as Lean definitions in `do` notation over the
 `Res` monad.  It has NO type inference: methods of the translated types are called through Lean's generalized field
 notation (`(x).mirror`), so Lean's elaborator resolves them by the type of the receiver; everything else is fixed below.
 
